@@ -38,6 +38,10 @@ def tasks(tier):
             add(f"eq/sound[{a},{b}]", mro_c.t_eq_sound(a, b))
     for k in ("Union", "Inter"):
         add(f"members_order_irrelevant[{k}]", mro_c.t_perm_invariant(k))
+    # a Literal matches the values equal to ANY of its listed values (so their order is irrelevant), wherever it is checked
+    from . import _gen
+
+    T += _gen.valuetype_tasks()[:2]
     return T
 
 
